@@ -262,3 +262,48 @@ Proof.
   unfold get_fs, ret. cbv beta iota. intros H. injection H as <- _.
   apply fold_probe_paths. cbn [ld_map]. apply paths_ok_overlain. apply rlf_paths.
 Qed.
+
+(* ------------------------------------------------------------------ probed layers keep the definition that was loaded *)
+Definition cores_ok (c : cfgT) (f : fsT) (m : lmap) : Prop :=
+  forall l, In l m -> exists l0, load_layer c f (l_name l) = Some l0 /\ core l = core l0.
+Lemma cores_ok_set c f m l l0 : cores_ok c f m -> lm_get m (l_name l0) = Some l0 -> core l = core l0 ->
+  cores_ok c f (lm_set m l).
+Proof.
+  intros H Hg Hc x Hx. apply lm_set_in in Hx as [->|Hx]; [|now apply H].
+  destruct (H l0 (lm_get_in _ _ _ Hg)) as (l1 & E1 & E2). exists l1.
+  assert (l_name l = l_name l0) as -> by (unfold core in Hc; now injection Hc). split; [exact E1|congruence].
+Qed.
+Lemma cores_ok_overlain c f ms m : cores_ok c f m -> cores_ok c f (overlain_map c ms m).
+Proof.
+  intros H l Hl. unfold overlain_map in Hl. apply in_map_iff in Hl as (l0 & <- & Hl0). exact (H _ Hl0).
+Qed.
+Lemma probe_layer_cores c f g um ld n : cores_ok c g (ld_map ld) -> cores_ok c g (ld_map (probe_layer c f um ld n)).
+Proof.
+  intros H. unfold probe_layer. destruct (lm_get (ld_map ld) n) as [l|] eqn:El; [|exact H].
+  destruct (l_state l =? st_error)%N; [exact H|]. cbv zeta. cbn [ld_map].
+  pose proof (lm_get_name _ _ _ El) as En. subst n.
+  apply (cores_ok_set c g _ _ l H El).
+  repeat match goal with |- context [if ?b then _ else _] => destruct b end;
+    rewrite ?find_layerstate_core; reflexivity.
+Qed.
+Lemma fold_probe_cores c f g um names : forall ld, cores_ok c g (ld_map ld) ->
+  cores_ok c g (ld_map (fold_left (probe_layer c f um) names ld)).
+Proof.
+  induction names as [|n r IH]; intros ld H; cbn [fold_left]; [exact H|]. apply IH. now apply probe_layer_cores.
+Qed.
+Lemma rlf_cores c f : cores_ok c f (read_layer_files c f).
+Proof.
+  intros l Hl. apply rlf_in in Hl as (n & _ & _ & H). exists l.
+  pose proof (load_layer_props _ _ _ _ H) as (<- & _). split; [exact H|reflexivity].
+Qed.
+Lemma get_layers_cores c um s ld s' : get_layers c um s = (Ret ld, s') -> cores_ok c (w_fs (s_w s)) (ld_map ld).
+Proof.
+  unfold get_layers, find_layers, bind, get_fs. cbv beta iota.
+  destruct (negb (is_dir (w_fs (s_w s)) (c_layers c))); [discriminate|].
+  destruct (negb (check_inheritance (read_layer_files c (w_fs (s_w s))))); [discriminate|].
+  destruct (normalize_order (read_layer_files c (w_fs (s_w s)))) as [o|]; [|discriminate].
+  unfold ret at 1. cbv beta iota. unfold probe_all, bind. rewrite refresh_eq.
+  destruct (probe_of (w_ks (s_w s))) as [|ms ds]; [discriminate|].
+  unfold get_fs, ret. cbv beta iota. intros H. injection H as <- _.
+  apply fold_probe_cores. cbn [ld_map]. apply cores_ok_overlain. apply rlf_cores.
+Qed.
